@@ -64,7 +64,7 @@ def build_scenario(tape, kinds=("query", "mutation"), incremental=False, max_req
                    allow_hang=False, max_depth=4, budget=26, want_r0=False,
                    allow_async=True, focus=None):
     """Returns a Scenario, or None when a generated document is rejected by validate()."""
-    spec = SchemaSpec(tape, incremental)
+    spec = SchemaSpec(tape, incremental, nonnull_bias=focus == "nullroot")
     schema = build_world_schema(spec)
     type_mode = TYPE_MODES[tape.weighted((3, 2, 2), "type_mode")]
     if focus == "seriality":
